@@ -48,6 +48,8 @@ type ReplayDoc struct {
 	Pos      string                 `json:"pos"`
 	Stack    []string               `json:"stack"`
 	Model    map[string]interface{} `json:"model"`
+	Tier     string                 `json:"tier"`
+	Reach    string                 `json:"reach,omitempty"`
 	Native   string                 `json:"native_replay"`
 	Output   string                 `json:"native_output,omitempty"`
 }
@@ -116,7 +118,7 @@ func nativeReplay(repo, verif string, doc *ReplayDoc, docPath string) (string, s
 	os.WriteFile(ovPath, ovb, 0644)
 	ctx, cancel := context.WithTimeout(context.Background(), 180*time.Second)
 	defer cancel()
-	cmd := exec.CommandContext(ctx, "go", "test", "-vet=off", "-count=1", "-timeout", "20s", "-run", "^TestVerifReplay$", "-overlay", ovPath, "./"+rel)
+	cmd := exec.CommandContext(ctx, "go", "test", "-tags", "verifreplay", "-vet=off", "-count=1", "-timeout", "20s", "-run", "^TestVerifReplay$", "-overlay", ovPath, "./"+rel)
 	cmd.Dir = repo
 	cmd.Env = append(os.Environ(), "GOFLAGS=-mod=mod", "GOPROXY=off", "GOSUMDB=off", "GOTOOLCHAIN=local", "VERIF_REPLAY="+docPath,
 		"GOCACHE="+filepath.Join(verif, ".cache/go-build"))
@@ -159,6 +161,131 @@ func nativeReplay(repo, verif string, doc *ReplayDoc, docPath string) (string, s
 		}
 	}
 	return "not-reproduced", short
+}
+
+type sampleItem struct {
+	Harness string
+	Path    string
+	Reach   string
+}
+
+// nativeSamples runs, in one go test process per package, every reachability sample of that package's
+// harnesses natively: the run must not panic or fail an assertion and must print the sample's Reach tag.
+// Returns the number of samples that agreed and descriptions of the ones that did not.
+func nativeSamples(repo, verif, pkg string, items []sampleItem) (int, []string) {
+	rel := strings.TrimPrefix(pkg, "github.com/IrineSistiana/mosproxy/")
+	tmp, err := os.MkdirTemp("", "verif-samples-")
+	if err != nil {
+		return 0, []string{err.Error()}
+	}
+	defer os.RemoveAll(tmp)
+	pkgName := filepath.Base(rel)
+	repl := map[string]string{}
+	hroot := filepath.Join(verif, "harness")
+	filepath.Walk(hroot, func(p string, info os.FileInfo, err error) error {
+		if err == nil && !info.IsDir() && strings.HasSuffix(p, ".go") {
+			r, _ := filepath.Rel(hroot, p)
+			repl[filepath.Join(repo, r)] = p
+			if filepath.Dir(r) == rel {
+				if b, err := os.ReadFile(p); err == nil {
+					if m := regexp.MustCompile(`(?m)^package (\w+)`).FindSubmatch(b); m != nil {
+						pkgName = string(m[1])
+					}
+				}
+			}
+		}
+		return nil
+	})
+	rts, _ := os.ReadDir(filepath.Join(verif, "rt/verifrt"))
+	for _, en := range rts {
+		if strings.HasSuffix(en.Name(), ".go") {
+			repl[filepath.Join(repo, "internal/verifrt", en.Name())] = filepath.Join(verif, "rt/verifrt", en.Name())
+		}
+	}
+	if bp := bytespoolPath(); bp != "" {
+		repl[bp] = filepath.Join(verif, "rt/replay/bytespool.go")
+	}
+	hs := map[string]bool{}
+	for _, it := range items {
+		hs[it.Harness] = true
+	}
+	var sb strings.Builder
+	fmt.Fprintf(&sb, "package %s\n\nimport (\n\t\"fmt\"\n\t\"os\"\n\t\"strings\"\n\t\"testing\"\n\n\t\"github.com/IrineSistiana/mosproxy/internal/verifrt\"\n)\n\n", pkgName)
+	sb.WriteString("func TestVerifSamples(t *testing.T) {\n\ths := map[string]func(){\n")
+	for h := range hs {
+		fmt.Fprintf(&sb, "\t\t%q: %s,\n", h, h)
+	}
+	sb.WriteString("\t}\n\tfor _, it := range strings.Split(os.Getenv(\"VERIF_SAMPLES\"), \",\") {\n\t\tp := strings.SplitN(it, \"|\", 2)\n\t\tif len(p) != 2 {\n\t\t\tcontinue\n\t\t}\n")
+	sb.WriteString("\t\tfmt.Println(\"VERIF-SAMPLE-BEGIN\", p[1])\n\t\tverifrt.LoadReplay(p[1])\n\t\ths[p[0]]()\n\t\tfmt.Println(\"VERIF-SAMPLE-OK\", p[1])\n\t}\n}\n")
+	testFile := filepath.Join(tmp, "zz_verif_samples_test.go")
+	os.WriteFile(testFile, []byte(sb.String()), 0644)
+	repl[filepath.Join(repo, rel, "zz_verif_samples_test.go")] = testFile
+	ovb, _ := json.Marshal(map[string]interface{}{"Replace": repl})
+	ovPath := filepath.Join(tmp, "overlay.json")
+	os.WriteFile(ovPath, ovb, 0644)
+	agreed := 0
+	var bad []string
+	remaining := items
+	for round := 0; round < 4 && len(remaining) > 0; round++ {
+		var env []string
+		for _, it := range remaining {
+			env = append(env, it.Harness+"|"+it.Path)
+		}
+		ctx, cancel := context.WithTimeout(context.Background(), 300*time.Second)
+		cmd := exec.CommandContext(ctx, "go", "test", "-tags", "verifreplay", "-vet=off", "-count=1", "-timeout", "120s", "-run", "^TestVerifSamples$", "-v", "-overlay", ovPath, "./"+rel)
+		cmd.Dir = repo
+		cmd.Env = append(os.Environ(), "GOFLAGS=-mod=mod", "GOPROXY=off", "GOSUMDB=off", "GOTOOLCHAIN=local", "VERIF_SAMPLES="+strings.Join(env, ","),
+			"GOCACHE="+filepath.Join(verif, ".cache/go-build"))
+		var outb bytes.Buffer
+		cmd.Stdout = &outb
+		cmd.Stderr = &outb
+		cmd.Run()
+		cancel()
+		out := outb.String()
+		if strings.Contains(out, "[build failed]") || strings.Contains(out, "setup failed") {
+			return agreed, append(bad, "native build failed: "+firstN(out, 600))
+		}
+		// split the output per sample
+		var next []sampleItem
+		failedOne := false
+		for i, it := range remaining {
+			bi := strings.Index(out, "VERIF-SAMPLE-BEGIN "+it.Path)
+			if bi < 0 {
+				if failedOne {
+					next = append(next, remaining[i:]...)
+				} else {
+					bad = append(bad, it.Harness+": sample not run")
+				}
+				break
+			}
+			seg := out[bi:]
+			if ei := strings.Index(seg[1:], "VERIF-SAMPLE-BEGIN "); ei >= 0 {
+				seg = seg[:ei+1]
+			}
+			if strings.Contains(seg, "VERIF-SAMPLE-OK "+it.Path) {
+				if it.Reach == "" || strings.Contains(seg, "VERIF-REACH: "+it.Reach) {
+					agreed++
+				} else {
+					bad = append(bad, fmt.Sprintf("%s: native run of the sample for Reach(%q) did not reach it", it.Harness, it.Reach))
+				}
+				continue
+			}
+			// this sample crashed natively: a path the engine deemed clean fails in reality
+			bad = append(bad, fmt.Sprintf("%s: native run of the sample for Reach(%q) failed: %s", it.Harness, it.Reach, firstN(seg, 400)))
+			failedOne = true
+			next = append(next, remaining[i+1:]...)
+			break
+		}
+		remaining = next
+	}
+	return agreed, bad
+}
+
+func firstN(s string, n int) string {
+	if len(s) > n {
+		return s[:n]
+	}
+	return s
 }
 
 func bytespoolPath() string {
@@ -255,6 +382,7 @@ func checkMain(args []string) int {
 	solverS := 0.0
 	funcs := map[string]bool{}
 	knownSeen := map[string]bool{}
+	sampleItems := map[string][]sampleItem{}
 	for _, r := range results {
 		states += r.States
 		trans += r.Instrs
@@ -280,9 +408,19 @@ func checkMain(args []string) int {
 			fmt.Printf("ENGINE-INCONCLUSIVE property=%s harness=%s: no Reach marker was reachable (vacuous harness)\n", prop, r.Name)
 			exit = 2
 		}
-		for tag, m := range r.Reached {
+		ns := 0
+		for _, tag := range keysOf(r.Reached) {
+			m := r.Reached[tag]
 			if len(samples) < 12 {
 				samples = append(samples, map[string]interface{}{"harness": r.Name, "reach": tag, "model": compactModel(m)})
+			}
+			if !r.ModelOnly && ns < 3 && r.Status != "error" {
+				ns++
+				sdoc := &ReplayDoc{Property: prop, Harness: r.Name, Pkg: r.Pkg, Kind: "sample", Reach: tag, Model: m, Tier: tier}
+				sp := filepath.Join(rdir, fmt.Sprintf("sample-%s-%s.json", r.Name, sanitize(tag)))
+				b, _ := json.MarshalIndent(sdoc, "", " ")
+				os.WriteFile(sp, b, 0644)
+				sampleItems[r.Pkg] = append(sampleItems[r.Pkg], sampleItem{r.Name, sp, tag})
 			}
 		}
 		seenSite := map[string]bool{}
@@ -292,11 +430,16 @@ func checkMain(args []string) int {
 				continue
 			}
 			seenSite[sk] = true
-			doc := &ReplayDoc{Property: prop, Harness: r.Name, Pkg: r.Pkg, Kind: v.Kind, Msg: v.Msg, Pos: v.Pos, Stack: v.Stack, Model: v.Model}
+			doc := &ReplayDoc{Property: prop, Harness: r.Name, Pkg: r.Pkg, Kind: v.Kind, Msg: v.Msg, Pos: v.Pos, Stack: v.Stack, Model: v.Model, Tier: tier}
 			path := filepath.Join(rdir, fmt.Sprintf("%s-%d.json", r.Name, i))
 			b, _ := json.MarshalIndent(doc, "", " ")
 			os.WriteFile(path, b, 0644)
-			res, out := nativeReplay(repo, verif, doc, path)
+			var res, out string
+			if r.ModelOnly {
+				res = "model-level"
+			} else {
+				res, out = nativeReplay(repo, verif, doc, path)
+			}
 			doc.Native, doc.Output = res, out
 			b, _ = json.MarshalIndent(doc, "", " ")
 			os.WriteFile(path, b, 0644)
@@ -310,7 +453,7 @@ func checkMain(args []string) int {
 				continue
 			}
 			switch {
-			case res == "reproduced" || res == "reproduced-differently" || res == "ghost":
+			case res == "reproduced" || res == "reproduced-differently" || res == "ghost" || res == "model-level":
 				fmt.Printf("VIOLATION property=%s replay=%s\n", prop, path)
 				fmt.Printf("  harness=%s %s native=%s\n", r.Name, desc, res)
 				nvio++
@@ -319,6 +462,22 @@ func checkMain(args []string) int {
 				}
 			default:
 				fmt.Printf("ENGINE-MISMATCH property=%s harness=%s %s: solver counterexample did not reproduce natively (%s) replay=%s\n", prop, r.Name, desc, res, path)
+				exit = 2
+			}
+		}
+	}
+	// translator validation: replay the reachability samples natively (same harness, same inputs)
+	if os.Getenv("VERIF_NO_SAMPLES") == "" {
+		var pk []string
+		for p := range sampleItems {
+			pk = append(pk, p)
+		}
+		sort.Strings(pk)
+		for _, p := range pk {
+			ok, bad := nativeSamples(repo, verif, p, sampleItems[p])
+			validated += ok
+			for _, b := range bad {
+				fmt.Printf("ENGINE-MISMATCH property=%s %s\n", prop, b)
 				exit = 2
 			}
 		}
@@ -348,6 +507,10 @@ func checkMain(args []string) int {
 	fmt.Printf("property=%s tier=%s harnesses=%d states=%d instructions=%d queries=%d solver_s=%.1f wall_s=%.1f exit=%d\n",
 		prop, tier, len(results), states, trans, queries, solverS, time.Since(t0).Seconds(), exit)
 	return exit
+}
+
+func sanitize(s string) string {
+	return regexp.MustCompile(`[^A-Za-z0-9_.-]`).ReplaceAllString(s, "_")
 }
 
 func round2(f float64) float64 { return float64(int(f*100)) / 100 }
